@@ -47,6 +47,28 @@ fn main() {
     quiet_panics();
     let ctx = Ctx::new(&id, tier, seed);
     if let Some(file) = replay {
+        // libFuzzer artifact (raw bytes): file name is <target>-crash-<hash>, target = cNN_<part>
+        let base = std::path::Path::new(&file).file_name().map(|f| f.to_string_lossy().to_string()).unwrap_or_default();
+        if let Some(rest) = base.strip_prefix(&format!("{}_", id.to_lowercase())) {
+            if !base.ends_with(".json") {
+                let part = rest.split('-').next().unwrap_or("").to_string();
+                let data = std::fs::read(&file).unwrap_or_else(|e| {
+                    eprintln!("cannot read {file}: {e}");
+                    std::process::exit(2)
+                });
+                match feos_verif::fuzz::try_one(&id, &part, &data) {
+                    Ok(()) => {
+                        println!("PASS");
+                        std::process::exit(0)
+                    }
+                    Err(m) => {
+                        println!("FAIL: {m}");
+                        println!("VIOLATION property={id} replay={file}");
+                        std::process::exit(1)
+                    }
+                }
+            }
+        }
         let s = std::fs::read_to_string(&file).unwrap_or_else(|e| {
             eprintln!("cannot read {file}: {e}");
             std::process::exit(2)
